@@ -55,6 +55,10 @@ cfg("dev_PingSkippedWhenActive", "sensitivity (seeded change C12-active-client-n
     "CS1", "WS1", 2, 0, "TRUE", "ReplyNone", "ExtNone", dev='{"PingSkippedWhenActive"}', inv="DispatchInvs", sym=False)
 cfg("dev_FlushWriteMayTruncate", "sensitivity (seeded change C12-idle-socket-left-nonblocking): a flushed message may reach a receiver only in part: exactly-once delivery to the addressee / every current member fails",
     "CS1", "WS1", 1, 0, "FALSE", "ReplyUni", "ExtNone", dev='{"FlushWriteMayTruncate"}', inv="UnicastOnlyAddressee", sym=False)
+cfg("dev_CloseOvertakesMessages", "sensitivity (plausible bug): the Close frame is acted upon before the data frames that arrived ahead of it in the same poll interval are dispatched",
+    "CS1", "WS1", 2, 0, "FALSE", "ReplyNone", "ExtNone", dev='{"CloseOvertakesMessages"}', inv="DispatchInvs", sym=False)
+cfg("dev_BroadcastAbortsOnDeadPeer", "sensitivity (plausible bug): a broadcast stops at the first dead socket, later members miss it",
+    "CS2", "WS1", 0, 0, "FALSE", "ReplyNone", "ExtBc", dev='{"BroadcastAbortsOnDeadPeer"}', inv="DeliveryInvs", sym=False)
 # thorough
 cfg("t_uni", "thorough: 2 clients x <= 2 messages, pool of 2, echo (unicast) replies, repaired pool",
     "CS2", "WS2", 2, 0, "FALSE", "ReplyUni", "ExtNone")
